@@ -1183,7 +1183,7 @@ def _sall(node, pred, _):
     if t == "cat":
         return z3.And(_sall(node[1], pred, _), _sall(node[2], pred, _))
     if t == "flat":
-        return _sall(node[1], lambda inner: seq_forall(inner, pred), _)
+        return _sall(SSeq.of(node[1]).node, lambda inner: seq_forall(inner, pred), _)
     n = _slen(node)
     if isinstance(n, int):
         fs = [fml(pred(_sget(node, i))) for i in range(n)]
